@@ -124,3 +124,15 @@ Proof.
   exact (conj (ex_cut_wf be Hb) (conj R1 (conj eq_refl (conj R2 (conj R3 (conj R4 (conj R5 (conj R6 (conj R7
           (conj R8 (conj R9 (conj R11 (conj R12 R13))))))))))))).
 Qed.
+
+(* ---- tie (a): the decision points the model uses at this place ARE the current C text (Core/CoreLeafLink.v;
+   Gen/LeafCore*.v is re-translated from /repo/src by gen/c2gallina.py on every run of this check) ---- *)
+From Ivv Require Import Base.CSem Gen.LeafCoreFd Gen.LeafCoreTask Gen.LeafCoreMain Gen.LeafCoreEpoll Gen.LeafCorePoll Core.CoreLeafLink.
+
+(* the translation of reported conditions into bands is THE SAME in the epoll and the poll back ends: both C loops,
+   as translated from the current source, compute the model's `activate` *)
+Theorem C15_band_translation_method_independent :
+  forall s k bits, 0 <= bits < 16 ->
+    activate_with core_ep_in core_ep_out core_ep_err s k bits = activate_with core_po_in core_po_out core_po_err s k bits.
+Proof. intros s k bits H. rewrite activate_is_the_code_epoll, activate_is_the_code_poll by exact H. reflexivity. Qed.
+Print Assumptions C15_band_translation_method_independent.
